@@ -65,3 +65,18 @@ MODULES += [
     {"name": "Ext", "ns": "Gen.Ext", "imports": ["GoldilocksVerif.Isa.X86", "GoldilocksVerif.Model.Region", "GoldilocksVerif.Gen.Scalar"],
      "roots": [("Goldilocks3", n) for n in EXT_SCALAR], "aliases": EXT_ALIASES},
 ]
+
+POS_IMPORTS = VEC_IMPORTS + ["GoldilocksVerif.Gen.Avx2", "GoldilocksVerif.Gen.Avx512", "GoldilocksVerif.Gen.Avx2Mat",
+                             "GoldilocksVerif.Gen.Avx512Mat"]
+MODULES += [
+    {"name": "PosConsts", "ns": "Gen.PosConsts", "imports": ["GoldilocksVerif.Model.Region"], "roots": [], "dispatch": False,
+     "consts": ["C", "S", "M", "P", "M_", "P_"], "consts_namespace": "PoseidonGoldilocksConstants"},
+    {"name": "PosScalar", "ns": "Gen.PosScalar", "imports": POS_IMPORTS + ["GoldilocksVerif.Gen.PosConsts"], "needs_globals": True,
+     "roots": [("PoseidonGoldilocks", n) for n in ["pow7", "pow7_", "add_", "pow7add_", "dot_", "prod_", "mvp_",
+                                                   "hash_full_result_seq", "hash_seq"]]},
+    {"name": "PosAvx2", "ns": "Gen.PosAvx2", "imports": POS_IMPORTS + ["GoldilocksVerif.Gen.PosConsts", "GoldilocksVerif.Gen.PosScalar"], "needs_globals": True,
+     "roots": [("PoseidonGoldilocks", n) for n in ["pow7_avx", "add_avx", "add_avx_a", "add_avx_small", "hash_full_result", "hash"]]},
+    {"name": "PosAvx512", "ns": "Gen.PosAvx512", "imports": POS_IMPORTS + ["GoldilocksVerif.Gen.PosConsts", "GoldilocksVerif.Gen.PosScalar"], "needs_globals": True,
+     "roots": [("PoseidonGoldilocks", n) for n in ["pow7_avx512", "add_avx512", "add_avx512_small", "hash_full_result_avx512",
+                                                   "hash_avx512"]]},
+]
